@@ -11,6 +11,7 @@ run_demo() {
 	if [ "$py" = "313" ]; then (cd /repo && PYTHONPATH=/repo:/venv/lib/python3.12/site-packages timeout 600 /root/.pyenv/versions/3.13.0/bin/python "$demo" >/tmp/seed_demo.log 2>&1); else (cd /repo && PYTHONPATH=/repo timeout 600 /venv/bin/python "$demo" >/tmp/seed_demo.log 2>&1); fi
 	echo $?
 }
+rm -rf /tmp/evidence_backup && cp -r /verif/evidence /tmp/evidence_backup
 echo "== demo on unchanged tree: exit $(run_demo)"
 git apply "$patch" || { echo "patch does not apply"; exit 2; }
 echo "== tests with change: $(/venv/bin/python -m pytest -q -p no:cacheprovider --timeout=900 --continue-on-collection-errors 2>&1 | tail -1)"
@@ -20,4 +21,5 @@ for p in "$@"; do
 	(cd /verif && ./check $p 2>&1 | grep -E "VIOLATION|KNOWN|obligations discharged|MACHINERY" | head -8; echo "   exit=${PIPESTATUS[0]}")
 done
 git checkout -- . ; git status --porcelain | head -3
+rm -rf /verif/evidence && mv /tmp/evidence_backup /verif/evidence
 rm -rf /repo/.cache /repo/_seeded 2>/dev/null
